@@ -694,13 +694,18 @@ class Batch:
         self.items = []        # (program index, label, expr)
         self.programs = []
 
-    def add(self, stream, circuit, cfg, fams, nontrivial, ref=None, sample=None, case=None, count=True):
+    def add(self, stream, circuit, cfg, fams, nontrivial, ref=None, sample=None, case=None, count=True, store=None, key=None):
         ctx, cirq = self.ctx, self.cirq
         cj = cfg_json(cfg)
-        key = [cirq.to_json(circuit), cj]
-        rep = dict(circuit_json=cirq.to_json(circuit), config=cj)
+        if store is None and case is not None and any(isinstance(o.g, FallbackG) for o in case.ops):
+            store, key = dict(fallback_case=case_to_json(case)), [case.key(), cj]
+        if store is None:         # `store`: what replay rebuilds the circuit from when it holds gates cirq.to_json cannot write
+            key = [cirq.to_json(circuit), cj]
+            rep = dict(circuit_json=cirq.to_json(circuit), config=cj)
+        else:
+            rep = dict(store, config=cj)
         desc = (f'{cfg["api"]}(version={cfg["version"]}, precision={cfg["precision"]}, qubit_order={cj["order"]}) of '
-                + ' '.join(repr(circuit).split()))[:700]
+                + (' '.join(repr(circuit).split()) if store is None or case is None else describe_case(cirq, case)))[:700]
         text, exc = export(cirq, circuit, cfg['order'], cfg['api'], cfg['version'], cfg['precision'])
         if exc is None and any(q.dimension != 2 for q in circuit.all_qubits()):
             ctx.count(stream, key, True)
@@ -820,7 +825,7 @@ class Batch:
             rep = dict(pr['rep'])
             desc = pr['desc']
             if m is not None:       # report the minimised input
-                rep = dict(m['rep'], shrunk_from=pr['rep']['circuit_json'])
+                rep = dict(m['rep'], shrunk_from=pr['rep'].get('circuit_json', pr['rep'].get('fallback_case')))
                 desc = m['desc']
             ctx.disagree(f'correspondence:{pr["stream"]}', f'{labels}', sig, f'{desc}: {detail}' + (f' [{diag}]' if diag else ''),
                          dict(kind=pr['stream'], failing=labels, **rep))
@@ -853,7 +858,10 @@ def run(ctx):
                 'with a _qasm_ rule at its special and at generic exponents; circuits with measurements, invert masks, repeated and '
                 'non-identifier keys, classical controls of every condition kind on operations whose QASM body has one statement, several (H**t, CCZ, CCY, '
                 'multi-qubit identity, operations without a QASM form that are decomposed) or none (global phase), resets) x (API: Circuit.to_qasm / cirq.qasm / QasmOutput) x '
-                '(version 2.0 / 3.0) x (precision 3,5,7,10) x (qubit order: given, reversed, shuffled); non-trivial = >= 2 operations '
+                '(version 2.0 / 3.0) x (precision 3,5,7,10) x (qubit order: given, reversed, shuffled); fallback: one- and two-qubit operations known by their matrix only '
+                '(a gate class defining nothing but _unitary_; QasmTwoQubitGate.from_matrix placed directly) whose matrix is a tensor product of one-qubit unitaries, '
+                'a special point of the Weyl chamber (CNOT / iSWAP / SWAP classes and roots, one or two vanishing coefficients, nearly separable, boundary) bare or dressed with '
+                'local unitaries, or generic - a fixed list for every seed plus random ones, alone and between neighbours sharing the qubits; non-trivial = >= 2 operations '
                 'sharing a qubit and >= 1 non-diagonal gate (unitary streams), >= 1 measurement and >= 1 gate (measurement streams); '
                 'exports that refuse with an explicit "no QASM form" error are counted as trivial; for a circuit that measures one key with different widths (no Cirq simulator runs it) only registers, measure statements and conditional bodies are judged; distinct by canonical (circuit, configuration)')
     ctx.assumptions += ['transcription of qelib1.inc / stdgates.inc in coq/Vendor/Qasm.v', 'the Python reader of the emitted subset',
@@ -875,6 +883,7 @@ def run(ctx):
     unitary_stream(ctx, cirq, b, 260 * k)
     wrappers_stream(ctx, cirq, b, 60 * k)
     directed_stream(ctx, cirq, b)
+    fallback_stream(ctx, cirq, b, k)
     measure_stream(ctx, cirq, b, 320 * k)
     b.evaluate('all')
     ctx.cov['programs'] = len(b.programs)
@@ -968,6 +977,212 @@ def rules_stream(ctx, cirq, b, k):
         cfg['precision'] = 10
         order_idx = [q.x for q in cfg['order']]
         b.add('rules', circuit, cfg, [g.fam], True, ref=(case.coq_shape(order_idx), case.coq_ops(order_idx)), case=case)
+
+
+# ======================================================================================================
+# operations the exporter knows only through their matrix (the numeric fallbacks of QasmOutput)
+# ======================================================================================================
+_FALLBACK_CLASSES = {}
+
+
+def fallback_classes(cirq):
+    """Gate classes that reach the matrix fallbacks: a user-defined gate with nothing but `_unitary_` (one or two qubits), and
+    QasmTwoQubitGate.from_matrix(m) placed in the circuit directly."""
+    if cirq in _FALLBACK_CLASSES:
+        return _FALLBACK_CLASSES[cirq]
+    from cirq.circuits.qasm_output import QasmTwoQubitGate
+
+    class UnitaryOnlyGate(cirq.Gate):
+        """No `_qasm_`, no `_decompose_`: QasmOutput has only the matrix to go by."""
+
+        def __init__(self, matrix, label):
+            self._matrix, self._label = np.array(matrix, dtype=complex), label
+
+        def _num_qubits_(self):
+            return {2: 1, 4: 2}[self._matrix.shape[0]]
+
+        def _unitary_(self):
+            return self._matrix
+
+        def __repr__(self):
+            return f'UnitaryOnlyGate({self._label})'
+
+    def direct(matrix, label):
+        g = QasmTwoQubitGate.from_matrix(np.array(matrix, dtype=complex))
+        g._vf_label = label
+        return g
+    _FALLBACK_CLASSES[cirq] = (UnitaryOnlyGate, direct, QasmTwoQubitGate)
+    return _FALLBACK_CLASSES[cirq]
+
+
+class FallbackG(gates.G):
+    """A gate of the vocabulary given by its matrix alone.  form: 'unitary_only' (user-defined gate class with `_unitary_`),
+    'from_matrix' (QasmTwoQubitGate.from_matrix used directly).  The reference is the matrix itself (GMat)."""
+
+    def __init__(self, form, m, label):
+        m = np.array(m, dtype=complex)
+        super().__init__({'unitary_only': 'UnitaryOnly', 'from_matrix': 'QasmTwoQubitGate.from_matrix'}[form] + ('' if m.shape[0] == 4 else '1q'),
+                         dict(m=m, form=form, label=label), (2,) * {2: 1, 4: 2}[m.shape[0]])
+
+    def cirq_gate(self, cirq, mods=None):
+        uo, direct, _ = fallback_classes(cirq)
+        return uo(self.p['m'], self.p['label']) if self.p['form'] == 'unitary_only' else direct(self.p['m'], self.p['label'])
+
+    def coq(self):
+        return gates.G('Matrix', dict(m=self.p['m']), self.shape).coq()
+
+    def to_json(self):
+        return dict(form=self.p['form'], label=self.p['label'], m=[[[float(x.real), float(x.imag)] for x in row] for row in self.p['m']])
+
+    @staticmethod
+    def from_json(d):
+        return FallbackG(d['form'], [[complex(a, b) for a, b in row] for row in d['m']], d['label'])
+
+
+def describe_case(cirq, case):
+    """The circuit of a case with matrix-only gates, written so that it can be typed in again."""
+    def one(o):
+        ws = ', '.join(f'q{w}' for w in o.wires)
+        if isinstance(o.g, FallbackG):
+            head = 'UnitaryOnlyGate' if o.g.p['form'] == 'unitary_only' else 'QasmTwoQubitGate.from_matrix'
+            return f'{head}({o.g.p["label"]}).on({ws})'
+        return f'{o.g.cirq_gate(cirq)!r}.on({ws})'
+    return 'cirq.Circuit(' + ', '.join(one(o) for o in case.ops) + f') on LineQubits q0..q{len(case.dims) - 1} (UnitaryOnlyGate: a gate class defining only _unitary_)'
+
+
+def case_to_json(case):
+    return dict(dims=case.dims, strategies=case.strategies,
+                ops=[dict(wires=o.wires, **(dict(fallback=o.g.to_json()) if isinstance(o.g, FallbackG) else dict(fam=o.g.fam, p=o.g.p, shape=list(o.g.shape)))) for o in case.ops])
+
+
+def case_from_json(d):
+    return circuits.Case(d['dims'], [circuits.Op(FallbackG.from_json(o['fallback']) if 'fallback' in o else gates.G(o['fam'], o['p'], o['shape']), o['wires'])
+                                     for o in d['ops']], d['strategies'])
+
+
+def kak_interaction_matrix(x, y, z):
+    """exp(i (x XX + y YY + z ZZ)) = prod_P (cos c_P + i sin c_P P(x)P)  (the three terms commute)."""
+    X, Y, Z = np.array([[0, 1], [1, 0]], dtype=complex), np.array([[0, -1j], [1j, 0]]), np.diag([1, -1]).astype(complex)
+    out = np.eye(4, dtype=complex)
+    for c, P in ((x, X), (y, Y), (z, Z)):
+        out = out @ (math.cos(c) * np.eye(4) + 1j * math.sin(c) * np.kron(P, P))
+    return out
+
+
+def mat_label(m):
+    return '[' + ', '.join('[' + ', '.join(f'{complex(x):.4g}' for x in row) + ']' for row in np.asarray(m)) + ']'
+
+
+def fallback_matrices(cirq, rng):
+    """(label, 4x4 unitary, class) for the two-qubit fallback.  A fixed part, the same for every VERIF_SEED: tensor products of
+    one-qubit unitaries (KAK interaction 0) whose factors do / do not commute with what a decomposition may put before and after;
+    special points of the Weyl chamber (CNOT, iSWAP, SWAP classes, their roots, one and two vanishing coefficients, nearly
+    separable, the chamber's boundary) bare and dressed with local unitaries on both sides; then a random part."""
+    U = lambda g: np.array(cirq.unitary(g))
+    I2 = np.eye(2, dtype=complex)
+    H, S, T, X, Y, Z = U(cirq.H), U(cirq.S), U(cirq.T), U(cirq.X), U(cirq.Y), U(cirq.Z)
+    sx, y4, z3 = U(cirq.X ** 0.5), U(cirq.Y ** 0.25), U(cirq.Z ** 0.3)
+    out = []
+    prod = [('H', H, 'S', S), ('S', S, 'H', H), ('H', H, 'H', H), ('I', I2, 'I', I2), ('X', X, 'I', I2), ('I', I2, 'Z', Z), ('Y', Y, 'T', T),
+            ('X**0.5 @ T', sx @ T, 'Y**0.25 @ Z**0.3', y4 @ z3), ('H @ T @ H', H @ T @ H, 'S @ H', S @ H), ('T', T, 'Z**0.3', z3)]
+    for la, a, lb, b_ in prod:
+        out.append((f'np.kron({la}, {lb})', np.kron(a, b_), 'product'))
+    out.append(('1j * np.kron(H, S)', 1j * np.kron(H, S), 'product'))
+    out.append(('exp(0.7j) * np.kron(X**0.5, Y**0.25)', cmath.exp(0.7j) * np.kron(sx, y4), 'product'))
+    for _ in range(4):
+        a, b_ = gates.random_unitary(rng, 2), gates.random_unitary(rng, 2)
+        ph = cmath.exp(1j * rng.uniform(0, 2 * math.pi)) if rng.random() < 0.5 else 1.0
+        out.append((f'{complex(ph):.4g} * np.kron({mat_label(a)}, {mat_label(b_)})', ph * np.kron(a, b_), 'product'))
+    q = math.pi / 4
+    weyl = [('CNOT class', (q, 0, 0)), ('iSWAP class', (q, q, 0)), ('SWAP class', (q, q, q)), ('SWAP class, z < 0', (q, q, -q)),
+            ('sqrt-CNOT class', (q / 2, 0, 0)), ('sqrt-iSWAP class', (q / 2, q / 2, 0)), ('sqrt-SWAP class', (q / 2, q / 2, q / 2)),
+            ('one coefficient', (0.3, 0, 0)), ('two coefficients', (0.5, 0.2, 0)), ('two equal coefficients', (0.4, 0.4, 0)),
+            ('chamber boundary x = pi/4', (q, 0.3, -0.1)), ('nearly separable 1e-4', (1e-4, 0, 0)), ('nearly separable 1e-7', (1e-7, 1e-7, 0)),
+            ('generic', (0.6, 0.35, -0.15))]
+    for name, (x, y, z) in weyl:
+        core = kak_interaction_matrix(x, y, z)
+        out.append((f'exp(i({x:.4g} XX + {y:.4g} YY + {z:.4g} ZZ)) [{name}]', core, 'weyl'))
+        out.append((f'np.kron(H, S) @ exp(i({x:.4g} XX + {y:.4g} YY + {z:.4g} ZZ)) @ np.kron(T, X**0.5) [{name}, dressed]',
+                    np.kron(H, S) @ core @ np.kron(T, sx), 'weyl'))
+    for g, name in ((cirq.CNOT, 'CNOT'), (cirq.CZ, 'CZ'), (cirq.SWAP, 'SWAP'), (cirq.ISWAP, 'ISWAP'), (cirq.CZ ** 0.5, 'CZ**0.5'), (cirq.SWAP ** 0.5, 'SWAP**0.5')):
+        out.append((f'cirq.unitary(cirq.{name})', U(g), 'weyl'))
+    for _ in range(3):
+        x, y, z = sorted([rng.uniform(0, q), rng.uniform(0, q), rng.uniform(0, q)], reverse=True)
+        if rng.random() < 0.5:
+            z = 0.0
+        a, b_, c, d = [gates.random_unitary(rng, 2) for _ in range(4)]
+        out.append((f'np.kron({mat_label(a)}, {mat_label(b_)}) @ exp(i({x:.4g} XX + {y:.4g} YY + {z:.4g} ZZ)) @ np.kron({mat_label(c)}, {mat_label(d)})',
+                    np.kron(a, b_) @ kak_interaction_matrix(x, y, z) @ np.kron(c, d), 'weyl'))
+    for _ in range(3):
+        m = gates.random_unitary(rng, 4)
+        out.append((mat_label(m), m, 'generic'))
+    return out
+
+
+def fallback_stream(ctx, cirq, b, k):
+    """Two-qubit (and one-qubit) operations that reach the matrix fallbacks of the exporter, in both forms, alone and between
+    neighbours that share their qubits, on given / reversed qubits, in every language version; the reference is the matrix."""
+    rng = ctx.rng
+    G = gates.G
+    mats = fallback_matrices(cirq, rng)
+    H1 = G('HPow', dict(e=1.0, s=0.0), (2,))
+    cases = []
+    for i, (label, m, cls) in enumerate(mats):
+        for form in ('unitary_only', 'from_matrix'):
+            g = FallbackG(form, m, label)
+            # alone, on the qubits as given or reversed
+            wires = [0, 1] if (i + (form == 'from_matrix')) % 2 == 0 else [1, 0]
+            cases.append((circuits.Case([2, 2], [circuits.Op(g, wires)], ['E']), dict(version='2.0' if i % 3 else '3.0', precision=10 if i % 2 else 7), cls))
+        # between neighbours sharing its qubits, three qubits, shuffled register order
+        g = FallbackG(['unitary_only', 'from_matrix'][i % 2], m, label)
+        a, c = rng.sample(range(3), 2)
+        nb = [circuits.Op(H1, [a]), circuits.Op(G('CXPow', dict(e=1.0, s=0.0), (2, 2)), [a, 3 - a - c]), circuits.Op(g, [c, a]),
+              circuits.Op(G(rng.choice(['CZPow', 'CXPow']), dict(e=rng.choice([1.0, 0.3]), s=0.0), (2, 2)), [a, c]), circuits.Op(G('YPow', dict(e=0.25, s=0.0), (2,)), [c])]
+        cases.append((circuits.Case([2, 2, 2], nb, ['E'] * len(nb)), dict(version=rng.choice(['2.0', '3.0']), precision=10), cls))
+    # one-qubit operations known by their matrix only (QasmUGate.from_matrix): special and random
+    U = lambda g_: np.array(cirq.unitary(g_))
+    ones = [('H', U(cirq.H)), ('S', U(cirq.S)), ('I', np.eye(2)), ('X', U(cirq.X)), ('-1j * Y', -1j * U(cirq.Y)), ('X**0.5 @ T', U(cirq.X ** 0.5) @ U(cirq.T)),
+            ('Z**0.3', U(cirq.Z ** 0.3))] + [(None, gates.random_unitary(rng, 2)) for _ in range(3 * k)]
+    for label, m in ones:
+        g = FallbackG('unitary_only', m, label or mat_label(m))
+        cases.append((circuits.Case([2, 2], [circuits.Op(H1, [0]), circuits.Op(g, [0]), circuits.Op(G('CXPow', dict(e=1.0, s=0.0), (2, 2)), [0, 1])], ['E'] * 3),
+                      dict(version=rng.choice(['2.0', '3.0']), precision=10), 'one-qubit'))
+    # random part: products and special coefficients again with fresh local unitaries, any configuration
+    for _ in range(24 * k):
+        r = rng.random()
+        locs = [gates.random_unitary(rng, 2) for _ in range(4)]
+        if r < 0.5:
+            m, cls = np.kron(locs[0], locs[1]), 'product'
+            label = f'np.kron({mat_label(locs[0])}, {mat_label(locs[1])})'
+        else:
+            q = math.pi / 4
+            x, y, z = rng.choice([(0.0, 0.0, 0.0), (q, 0, 0), (q, q, 0), (q, q, q), (rng.uniform(0, q), 0, 0), (q, rng.uniform(0, q), 0),
+                                  tuple(sorted([rng.uniform(0, q) for _ in range(3)], reverse=True))])
+            m, cls = np.kron(locs[0], locs[1]) @ kak_interaction_matrix(x, y, z) @ np.kron(locs[2], locs[3]), 'weyl'
+            label = f'np.kron({mat_label(locs[0])}, {mat_label(locs[1])}) @ exp(i({x:.4g} XX + {y:.4g} YY + {z:.4g} ZZ)) @ np.kron({mat_label(locs[2])}, {mat_label(locs[3])})'
+        g = FallbackG(rng.choice(['unitary_only', 'from_matrix']), m, label)
+        n = rng.choice([2, 2, 3])
+        ops = []
+        for _ in range(rng.randint(0, 2)):
+            ops.append(circuits.Op(gates.draw(rng, rng.choice(['XPow', 'HPow', 'ZPow'])), [rng.randrange(n)]))
+        ops.append(circuits.Op(g, rng.sample(range(n), 2)))
+        for _ in range(rng.randint(0, 2)):
+            ops.append(circuits.Op(gates.draw(rng, rng.choice(['CZPow', 'CXPow', 'SwapPow'])), rng.sample(range(n), 2)))
+        cases.append((circuits.Case([2] * n, ops, ['E'] * len(ops)), None, cls))
+    for case, fixed, cls in cases:
+        circuit, qs = case.circuit(cirq)
+        cfg = draw_config(rng, qs)
+        if fixed is not None:
+            cfg.update(fixed)
+            if cfg['api'] == 'cirq.qasm':
+                cfg['api'] = 'to_qasm'
+        order_idx = [q.x for q in cfg['order']]
+        fams = sorted({o.g.fam for o in case.ops})
+        b.add('fallback', circuit, cfg, fams, True, ref=(case.coq_shape(order_idx), case.coq_ops(order_idx)), case=case,
+              store=dict(fallback_case=case_to_json(case)), key=[case.key(), cfg_json(cfg)])
+        ctx.cov.setdefault('fallback_matrix_classes', {})
+        ctx.cov['fallback_matrix_classes'][cls] = ctx.cov['fallback_matrix_classes'].get(cls, 0) + 1
+
 
 
 def directed_circuits(cirq):
@@ -1120,7 +1335,10 @@ def measure_stream(ctx, cirq, b, n):
 def replay(ctx, data):
     """Re-export the stored circuit with the stored configuration and evaluate every check of that program again."""
     cirq = env.import_cirq()
-    circuit = cirq.read_json(json_text=data['circuit_json'])
+    if 'fallback_case' in data:
+        circuit, _ = case_from_json(data['fallback_case']).circuit(cirq)
+    else:
+        circuit = cirq.read_json(json_text=data['circuit_json'])
     cj = data['config']
     qs = sorted(circuit.all_qubits())
     byx = {q.x: q for q in qs}
